@@ -20,6 +20,7 @@
   C03's crown lemma.
 -/
 import AdaptixProofs.Lemmas.MorphRTCriteria
+import AdaptixProofs.Lemmas.MorphRTExample
 
 namespace Adaptix.Morph.C01
 open Adaptix.Py Adaptix.Morph
@@ -91,10 +92,125 @@ theorem json_admissible_no_any (hR : RoundTrippableJson W DW C cfg T) : jsonSafe
 /-- A codec whose dumped forms JSON leaves alone satisfies the JSON codec law. -/
 theorem scalarJson_of_fixed (hS : ScalarRT W C)
     (hfix : ∀ name x d d', C.inhabits name x → W.scalarDump name x = .ok d →
-      jsonTravel d = some d' → d' = d) : ScalarJson W C := by
-  intro s name x d d' hi hd hj
-  obtain ⟨d0, h1, h2⟩ := hS.rt s name x hi
-  rw [hd] at h1; cases h1
-  rw [hfix name x d d' hi hd hj]; exact h2
+      jsonTravel d = some d' → d' = d) : ScalarJson W C :=
+  rt_scalarJson_of_fixed hS hfix
+
+/-! ## non-vacuity: a concrete world (`Lemmas/MorphRTExample.lean`) -/
+
+/-- **non-vacuity, recursive model**: every finite tree (any depth, any labels) dumps and
+    loads back, in every mode -/
+example (cfg : Cfg) {x : Val} (h : IsOptTree x) :
+    ∃ n d, ∀ m, n ≤ m → dump W0 DW0 cfg m optTree x = .ok d ∧
+      ∃ x', load W0 cfg m optTree d = .ok x' ∧ Val.same x' x = true :=
+  roundtrip_total scalarRT0 ⟨classesOK0 cfg false, optTree_ok cfg false⟩ (isOptTree_hasTy h)
+
+/-- … and through JSON -/
+example (cfg : Cfg) {x d d' : Val} {n : Nat} (h : IsOptTree x)
+    (hd : dump W0 DW0 cfg n optTree x = .ok d) (hj : jsonTravel d = some d') :
+    ∃ m, ∀ m', m ≤ m' → ∃ x', load W0 cfg m' optTree d' = .ok x' ∧ Val.same x' x = true :=
+  roundtrip_json scalarRT0 scalarJson0 ⟨classesOK0 cfg true, optTree_ok cfg true⟩
+    (isOptTree_hasTy h) hd hj
+
+example : dump W0 DW0 ⟨.all, true⟩ 6 optTree tree1 = .ok tree1Dump := by rfl
+example : jsonTravel tree1Dump = some tree1Dump := by rfl
+example : load W0 ⟨.all, true⟩ 6 optTree tree1Dump = .ok tree1 := by
+  simp [load, tree1Dump, tree1, optTree, loadUnion, isNoneTy, Val.isNone, W0, treeFields, loadModel,
+    modelItems, Val.lookup, Val.pyEq, seqMode, sweepAll, Sweep.finish, bindO]
+
+/-! ### containers, a string-dumped scalar, a general union -/
+
+/-- **non-vacuity, dict / set / general union**, all six configurations, direct and via JSON -/
+example (cfg : Cfg) :
+    ∃ n d, ∀ m, n ≤ m → dump W0 DW0 cfg m dictTy dictVal = .ok d ∧
+      ∃ x', load W0 cfg m dictTy d = .ok x' ∧ Val.same x' dictVal = true :=
+  roundtrip_total scalarRT0 ⟨classesOK0 cfg false, dictTy_ok cfg false⟩ dictVal_hasTy
+
+example (cfg : Cfg) {d d' : Val} {n : Nat} (hd : dump W0 DW0 cfg n dictTy dictVal = .ok d)
+    (hj : jsonTravel d = some d') :
+    ∃ m, ∀ m', m ≤ m' → ∃ x', load W0 cfg m' dictTy d' = .ok x' ∧ Val.same x' dictVal = true :=
+  roundtrip_json scalarRT0 scalarJson0 ⟨classesOK0 cfg true, dictTy_ok cfg true⟩ dictVal_hasTy hd hj
+
+example : dump W0 DW0 ⟨.first, true⟩ 5 dictTy dictVal =
+    .ok (.dict [(.str "a", .tuple [.int 1, .str "x"]), (.str "b", .tuple [])]) := by
+  simp [dump, dictTy, dictVal, uIS, dumpDict, dictItemsD, seqModeDump, seqFirst, bindO, buildDictD,
+    Val.hashable, Val.dictSet, Val.pyEq, dumpIter, Val.iterElems, idxItemsD, dumpUnion, isNoneTyD,
+    dumpUnion.general, literalVals, dumpUnion.byClass, dispatchTable, dispatchCase, DW0, Val.tag, W0]
+
+example (cfg : Cfg) (t : String) (is : List Int) :
+    ∃ n d, ∀ m, n ≤ m →
+      dump W0 DW0 cfg m decTy (.tuple [.atom "Decimal" t, .list (is.map .int)]) = .ok d ∧
+      ∃ x', load W0 cfg m decTy d = .ok x' ∧
+        Val.same x' (.tuple [.atom "Decimal" t, .list (is.map .int)]) = true := by
+  refine roundtrip_total scalarRT0 ⟨classesOK0 cfg false, ?_⟩ ?_
+  · refine TyOK.tuple ?_
+    intro u hu
+    simp only [List.mem_cons, List.not_mem_nil, or_false] at hu
+    rcases hu with rfl | rfl
+    · exact TyOK.scalar
+    · exact TyOK.iter TyOK.scalar
+  · refine HasTy.tuple rfl ?_
+    intro p hp
+    simp only [List.zip_cons_cons, List.zip_nil_right, List.mem_cons, List.not_mem_nil,
+      or_false] at hp
+    rcases hp with rfl | rfl
+    · exact HasTy.scalar (by simp [C0])
+    · refine HasTy.iter (f := .list) (xs := is.map .int) ?_ (fun h => by cases h)
+      intro e he
+      obtain ⟨i, _, rfl⟩ := List.mem_map.1 he
+      exact HasTy.scalar (by simp [C0])
+
+example : dump W0 DW0 ⟨.disable, false⟩ 3 decTy (.tuple [.atom "Decimal" "1.50", .list [.int 7]]) =
+    .ok (.tuple [.str "1.50", .list [.int 7]]) := by rfl
+example : load W0 ⟨.disable, false⟩ 3 decTy (.list [.str "1.50", .list [.int 7]]) =
+    .ok (.tuple [.atom "Decimal" "1.50", .list [.int 7]]) := by rfl
+
+/-! ### what does NOT hold (each with its concrete witness) -/
+
+/-- **The same-fuel form of the round trip is FALSE in the model.** The union dumper's
+    `if data in literal_cases` shortcut returns without calling a case dumper, while the
+    union loader has to call the `Literal` loader: with fuel 1 the dump of `1 : Literal[1] | str`
+    succeeds and the load of its result runs out of fuel — although the type is admissible
+    and the value well-typed. (With one more unit of fuel the load returns the value, as
+    `roundtrip_eq` says.) -/
+theorem roundtrip_same_fuel_false (cfg : Cfg) :
+    ScalarRT W0 C0 ∧ RoundTrippable W0 DW0 C0 cfg litTy ∧ HasTy W0 C0 litTy (.int 1) ∧
+      dump W0 DW0 cfg 1 litTy (.int 1) = .ok (.int 1) ∧
+      load W0 cfg 1 litTy (.int 1) = .diverge ∧
+      load W0 cfg 2 litTy (.int 1) = .ok (.int 1) := by
+  refine ⟨scalarRT0, ⟨classesOK0 cfg false, litTy_ok cfg⟩, ?_, ?_, ?_, ?_⟩
+  · exact HasTy.union (t := .literal [.int 1]) (by simp)
+      (HasTy.literal (v := .int 1) (by simp) (by simp [Val.same]))
+  · simp [dump, litTy, dumpUnion, isNoneTyD, dumpUnion.general, literalVals, Val.memOf, Val.pyEq]
+  · obtain ⟨t, s⟩ := cfg
+    cases t <;> simp [load, litTy, loadUnion, isNoneTy, loadUnion.general, unionFirstOk, unionAll]
+  · obtain ⟨t, s⟩ := cfg
+    cases t <;> cases s <;>
+      simp [load, litTy, loadUnion, isNoneTy, loadUnion.general, unionFirstOk, unionAll,
+        loadLiteral, boolSensitive, typedMem, Val.tag, Val.memOf, Val.pyEq]
+
+/-- **Overlapping union cases break the round trip** (so the non-overlap condition of
+    `RoundTrippable` is needed): in `str | Decimal` a Decimal dumps to a string, which the
+    `str` loader — first in order — accepts. -/
+example : dump W0 DW0 ⟨.disable, true⟩ 2 (.union [.scalar "str", .scalar "decimal"] ["str", "Decimal"])
+      (.atom "Decimal" "1") = .ok (.str "1") ∧
+    load W0 ⟨.disable, true⟩ 2 (.union [.scalar "str", .scalar "decimal"] ["str", "Decimal"])
+      (.str "1") = .ok (.str "1") ∧
+    Val.same (.str "1") (.atom "Decimal" "1") = false := by
+  refine ⟨by rfl, by rfl, by simp [Val.same]⟩
+
+/-- **`Any` is not stable under JSON** (so `RoundTrippableJson` excludes it): a tuple held
+    by an `Any` position comes back as a list. -/
+example : dump W0 DW0 ⟨.disable, true⟩ 1 .any (.tuple [.int 1]) = .ok (.tuple [.int 1]) ∧
+    jsonTravel (.tuple [.int 1]) = some (.list [.int 1]) ∧
+    load W0 ⟨.disable, true⟩ 1 .any (.list [.int 1]) = .ok (.list [.int 1]) ∧
+    Val.same (.list [.int 1]) (.tuple [.int 1]) = false := by
+  refine ⟨by rfl, by rfl, by rfl, by simp [Val.same]⟩
+
+/-- `Val.same` is not symmetric on association lists with a repeated key (values no Python
+    dict can be); the theorems above therefore never use symmetry — they return `x` itself. -/
+example :
+    Val.same (.dict [(.int 1, .int 1), (.int 1, .int 1)]) (.dict [(.int 1, .int 1), (.int 2, .int 2)]) = true ∧
+    Val.same (.dict [(.int 1, .int 1), (.int 2, .int 2)]) (.dict [(.int 1, .int 1), (.int 1, .int 1)]) = false := by
+  constructor <;> simp [Val.same, Val.sameDictSub, Val.sameHasKV]
 
 end Adaptix.Morph.C01
